@@ -89,6 +89,19 @@ def case_roundtrips(R, D, populate):
                 else:
                     xs = x[:, :o.Dx]
                     same_function(fails, f"{tag}:{name}", oo.condition_on_x(xs), o.condition_on_x(xs), x[:, :o.Dy], params)
+            # pickle (the classes patch __getstate__/__setstate__ and register the pytree lazily on unpickling) and deepcopy
+            try:
+                import pickle, copy
+                for how, oc in (("pickle", pickle.loads(pickle.dumps(o))), ("deepcopy", copy.deepcopy(o))):
+                    if factor_like:
+                        same_function(fails, f"{how}:{name}", oc, o, x, params)
+                        ev_j = jax.jit(lambda z, xx: z.evaluate_ln(xx))(oc, x)
+                        fail_if(fails, PROPERTY, f"{how}:{name}:jit-arg", "the copied object as a jit argument evaluates differently", np.asarray(ev_j), np.asarray(o.evaluate_ln(x)), params=params)
+                    else:
+                        xs = x[:, :o.Dx]
+                        same_function(fails, f"{how}:{name}", oc.condition_on_x(xs), o.condition_on_x(xs), x[:, :o.Dy], params)
+            except Exception as e:
+                fails.append(failure(PROPERTY, f"pickle:{name}", f"pickle / deepcopy round trip raised: {type(e).__name__}: {str(e)[:160]}", params=params))
             # to_dict / from_dict; the rebuilt object is a first-class object again (jit argument, jit result)
             if hasattr(o, "to_dict"):
                 try:
